@@ -177,7 +177,14 @@ def static_pool(tier):
     def outer(w):
         return _preset(TD("rec", None, (("i1", inner(w)), ("i2", inner(1)), ("k", TD("bit")), ("v", TD("u", w)))), ST.TOuter[w])
 
+    def derived(w):
+        return _preset(TD("rec", inner(w), (("d", TD("u", w)), ("e", TD("bit")))), ST.TDerived[w])
+
+    def derived2(w):
+        return _preset(TD("rec", derived(w), (("f", TD("bv", w)),)), ST.TDerived2[w])
+
     out = [inner(1), inner(2), outer(1), outer(2), _preset(TD("enum", 3), ST.Flags), _preset(TD("enum", 3), ST.SparseEnum)]
+    out += [derived(1), derived(2), derived2(1)]
     out.append(TD("sarray", inner(2), 2))
     if tier != "quick":
         out += [inner(3), outer(3)]
